@@ -1,11 +1,11 @@
 CONSTANTS Clients = {1}  SrvUid = 0  SrvGid = 0
+  CreateAsFound = FALSE
   ShmFiles = {1, 2, 3}  SockFiles = {7}
 CONSTANT Uids <- MCUids
 CONSTANT Gids <- MCGids
 CONSTANT Modes <- MCModes
 CONSTANT Errs <- MCErrs
 SPECIFICATION MSpec
-CONSTRAINT NoKF_Mode
 INVARIANT TypeOK
 INVARIANT AcceptArgsAreKernelCreds
 INVARIANT RefusalReported
